@@ -9,7 +9,7 @@
    This file contains only statements closed by `exact`, their assumptions and non-vacuity examples.
    Generated once by tools/genprops.py from the proved lemmas (statements restated verbatim). *)
 From Coq Require Import List NArith ZArith Bool Lia Sorting.Permutation.
-From Viv Require Import Base.Assoc Base.Tree Model.Paths Model.Steps Model.Struct Model.StructC Proofs.Struct_proofs Proofs.Consistent_proofs.
+From Viv Require Import Base.Assoc Base.Tree Model.Paths Model.Steps Model.Struct Model.StructC Proofs.Struct_proofs Proofs.Consistent_proofs Proofs.MoveP_proofs.
 Import ListNotations.
 
 (* after an update no registered process lies under a path it deleted: nothing deleted (or moved away under its old path) is ever polled again *)
@@ -245,6 +245,35 @@ Theorem C10_book_apply_procs :
          (exists pi : pinfo, In (q, pi) (r_process rp) /\ pi_step pi = false /\ o = pi_obj pi).
 Proof. exact @book_apply_procs. Qed.
 Print Assumptions C10_book_apply_procs.
+
+(* ... move step with a nested source path *)
+Theorem C10_consistent_movep :
+  forall (mk_child : N -> cnode * N) (D : Type) (build : D -> N -> cnode * N)
+           (copy_procs : cnode -> N -> cnode * N) (vr : variant) (t : cnode)
+           (here src tgt : list key) (uid : N) (t' : cnode) (rp : reports) 
+           (uid' : N) (b b' : book),
+         cwf t ->
+         consistent_procs t b ->
+         starts_with (tgt ++ src) (here ++ src) = false ->
+         apply_op mk_child D build copy_procs vr t here (OpMoveP D src tgt) uid = Ok (t', rp, uid') ->
+         book_apply b rp = Ok b' -> consistent_procs t' b'.
+Proof. exact @consistent_movep. Qed.
+Print Assumptions C10_consistent_movep.
+
+(* the processes after a nested-source move are exactly the old ones outside the source plus the reported ones *)
+Theorem C10_movep_reports :
+  forall (mk_child : N -> cnode * N) (D : Type) (build : D -> N -> cnode * N)
+           (copy_procs : cnode -> N -> cnode * N) (vr : variant) (t : cnode)
+           (here src tgt : list key) (uid : N) (t' : cnode) (rp : reports) 
+           (uid' : N) (q : list key) (o : N),
+         cwf t ->
+         starts_with (tgt ++ src) (here ++ src) = false ->
+         apply_op mk_child D build copy_procs vr t here (OpMoveP D src tgt) uid = Ok (t', rp, uid') ->
+         In (q, o) (proc_paths t') <->
+         In (q, o) (proc_paths t) /\ starts_with q (here ++ src) = false \/
+         (exists pi : pinfo, In (q, pi) (r_process rp) /\ o = pi_obj pi).
+Proof. exact @movep_reports. Qed.
+Print Assumptions C10_movep_reports.
 
 
 (* ---- non-vacuity on the concrete kit (Model/StructC.v) ---- *)
